@@ -23,6 +23,7 @@ var (
 	vC02Reqs    []*proto.LeaderEpochOffsetRequest
 	vC02Resps   []*proto.LeaderEpochOffsetResponse
 	vC02LastRsp []byte
+	vC02Pending []byte // a prepared replication response the next NATS request is answered with
 )
 
 func vInstallC02StandIns() {
@@ -37,7 +38,17 @@ func vInstallC02StandIns() {
 		return []byte{byte(len(vC02Resps) - 1)}, nil
 	})
 	vIntercept(pp+"UnmarshalLeaderEpochOffsetResponse", func(d []byte) (*proto.LeaderEpochOffsetResponse, error) { return vC02Resps[d[0]], nil })
+	vIntercept(pp+"MarshalReplicationRequest", func(r *proto.ReplicationRequest) ([]byte, error) { return []byte{0xFE}, nil })
 	vIntercept("(*github.com/nats-io/nats.go.Conn).Request", func(c *nats.Conn, subj string, data []byte, t time.Duration) (*nats.Msg, error) {
+		if len(data) == 1 && data[0] == 0xFE {
+			// a replication request: answered with the prepared response
+			rsp := vC02Pending
+			vC02Pending = nil
+			if rsp == nil {
+				return nil, nats.ErrTimeout
+			}
+			return &nats.Msg{Data: rsp}, nil
+		}
 		vC02LastRsp = nil
 		vC02Leader.handleLeaderOffsetRequest(&nats.Msg{Subject: subj, Data: data})
 		if vC02LastRsp == nil {
@@ -96,9 +107,10 @@ func vLogAt(l commitlog.CommitLog, off int64) ([]byte, uint64, bool) {
 // vFetch: one replication response of leader l for follower f, built in the
 // real wire format (envelope header, leader epoch, HW, up to 'max' messages
 // after the follower's newest offset as ONE message set, as
-// replicator.replicate batches them) and handed to the follower's real
-// handleReplicationResponse.
-func vFetch(l, f *vRep, max int) int {
+// replicator.replicate batches them) and delivered as the answer to the
+// follower's real sendReplicationRequest, sent in leader epoch 'sentIn' (which
+// hands it to the real handleReplicationResponse).
+func vFetch(l, f *vRep, max int, sentIn uint64) int {
 	var out bytes.Buffer
 	proto.WriteReplicationResponseHeader(&out)
 	binary.Write(&out, proto.Encoding, l.p.LeaderEpoch)
@@ -121,7 +133,10 @@ func vFetch(l, f *vRep, max int) int {
 			out.Write(m)
 		}
 	}
-	return f.p.handleReplicationResponse(&nats.Msg{Data: out.Bytes()})
+	vC02Pending = out.Bytes()
+	n, err := f.p.sendReplicationRequest(sentIn)
+	vAssert(err == nil, "the replication request is answered")
+	return n
 }
 
 // VerifC02Failovers: the leader sequence a -> (b|c) -> the other -> with the
@@ -181,7 +196,7 @@ func VerifC02Failovers() {
 			// a response of the deposed leader to a fetch that was in flight
 			// across the switch arrives late: it must be dropped
 			if prev != nil && prev != f && f == followers[0] && (staleIn == 0 || epoch == staleIn) && vChoose(2) == 1 {
-				n := vFetch(prev, f, 8)
+				n := vFetch(prev, f, 8, prev.p.LeaderEpoch) // sent before the switch
 				vAssert(n == 0, "a replication response from a deposed leader's epoch is dropped")
 				vCover("stale-response")
 			}
@@ -201,7 +216,7 @@ func VerifC02Failovers() {
 			if !f.alive {
 				continue
 			}
-			vFetch(leader, f, vChoose(3))
+			vFetch(leader, f, vChoose(3), epoch)
 			if o := f.p.log.NewestOffset(); o < hw {
 				hw = o
 			}
@@ -219,7 +234,7 @@ func VerifC02Failovers() {
 		// followers learn the new HW with their next (empty) fetch, or not
 		for _, f := range followers {
 			if f.alive && vChoose(2) == 1 {
-				vFetch(leader, f, 0)
+				vFetch(leader, f, 0, epoch)
 			}
 		}
 		check(leader, what)
@@ -240,9 +255,9 @@ func VerifC02Failovers() {
 	term(third, []*vRep{a, second}, 9, vParam("m3", 2), "term of the third leader")
 	vCover("third-term")
 	// finally everybody alive catches up completely
-	vFetch(third, a, 8)
+	vFetch(third, a, 8, 9)
 	third.p.log.SetHighWatermark(third.p.log.NewestOffset())
-	vFetch(third, a, 0)
+	vFetch(third, a, 0, 9)
 	check(third, "after catching up")
 	vCover("done")
 }
